@@ -477,7 +477,207 @@ func ruleSIB4(w *World) []Ob {
 	if n == 0 {
 		l.undecided("-", "recursive traversals over children", "-", "none found", "traversal")
 	}
+	for _, p := range []*Prog{w.D(), w.W()} {
+		l.cfg = p.Cfg.Name
+		for _, o := range freshConversionObligations(w, p) {
+			l.add(o)
+		}
+	}
 	return l.list
+}
+
+// isTreeConverter: a module function that takes a *Node, calls itself (on the children) and returns something that
+// is neither a node nor a string nor an error — the record tree handed to a JSON / YAML / TOML encoder.
+func isTreeConverter(p *Prog, f *ssa.Function) bool {
+	if f == nil {
+		return false
+	}
+	if o := f.Origin(); o != nil {
+		f = o
+	}
+	if !p.InModule(f) || f.Signature.Results().Len() != 1 {
+		return false
+	}
+	rt := f.Signature.Results().At(0).Type()
+	if isNodePtr(rt) || isErrorType(rt) {
+		return false
+	}
+	if b, ok := rt.Underlying().(*types.Basic); ok && b.Info()&(types.IsString|types.IsBoolean|types.IsNumeric) != 0 {
+		return false
+	}
+	hasNode := false
+	for _, prm := range f.Params {
+		if isNodePtr(prm.Type()) {
+			hasNode = true
+		}
+	}
+	if !hasNode {
+		return false
+	}
+	rec := false
+	allInstrs(f, func(in ssa.Instruction) {
+		if c, ok := in.(ssa.CallInstruction); ok {
+			if cal := c.Common().StaticCallee(); cal != nil && (cal == f || cal.Origin() == f) {
+				rec = true
+			}
+		}
+	})
+	return rec
+}
+
+// freshConversionObligations: whatever is handed to an encoder is the conversion of the root at hand, made for this
+// call — not a record looked up in a map, kept in a field or shared between roots.  (Two roots that look alike
+// under some key are still two roots of the output.)
+func freshConversionObligations(w *World, p *Prog) []Ob {
+	var out []Ob
+	var fresh func(v ssa.Value, depth int, why *string) bool
+	freshFn := func(f *ssa.Function, idx, depth int, why *string) bool {
+		if isTreeConverter(p, f) {
+			return true
+		}
+		if !p.InModule(f) || len(f.Blocks) == 0 {
+			*why = "comes from " + f.String() + ", which is not a conversion of the tree"
+			return false
+		}
+		ok := true
+		n := 0
+		allInstrs(f, func(in ssa.Instruction) {
+			if r, isR := in.(*ssa.Return); isR && idx < len(r.Results) {
+				n++
+				if !fresh(r.Results[idx], depth+1, why) {
+					ok = false
+				}
+			}
+		})
+		return ok && n > 0
+	}
+	fresh = func(v ssa.Value, depth int, why *string) bool {
+		if depth > 4 {
+			*why = "too deep to follow"
+			return false
+		}
+		v = resolve(v)
+		switch x := v.(type) {
+		case *ssa.Call:
+			if f := x.Common().StaticCallee(); f != nil {
+				return freshFn(f, 0, depth, why)
+			}
+			if x.Common().IsInvoke() {
+				*why = "comes from an interface call"
+				return false
+			}
+			switch c := resolve(x.Common().Value).(type) {
+			case *ssa.MakeClosure:
+				return freshFn(c.Fn.(*ssa.Function), 0, depth, why)
+			case *ssa.Function:
+				return freshFn(c, 0, depth, why)
+			case *ssa.Parameter:
+				// a conversion handed in by the caller: every call site must hand in a converter
+				fn := c.Parent()
+				i := paramIndex(fn, c)
+				callers := p.Callers(fn)
+				if len(callers) == 0 {
+					*why = "is made by a function parameter nobody fills"
+					return false
+				}
+				for _, ci := range callers {
+					args := callArgs(ci.Common())
+					if i >= len(args) {
+						*why = "is made by a function parameter"
+						return false
+					}
+					switch a := resolve(args[i]).(type) {
+					case *ssa.MakeClosure:
+						if !freshFn(a.Fn.(*ssa.Function), 0, depth+1, why) {
+							return false
+						}
+					case *ssa.Function:
+						if !freshFn(a, 0, depth+1, why) {
+							return false
+						}
+					default:
+						*why = "is made by a function value that cannot be followed"
+						return false
+					}
+				}
+				return true
+			}
+			*why = "is made by a function value that cannot be followed"
+			return false
+		case *ssa.Phi:
+			for _, e := range x.Edges {
+				if !fresh(e, depth+1, why) {
+					return false
+				}
+			}
+			return true
+		case *ssa.Extract:
+			if c, ok := x.Tuple.(*ssa.Call); ok {
+				if f := c.Common().StaticCallee(); f != nil {
+					return freshFn(f, x.Index, depth, why)
+				}
+			}
+			if _, ok := x.Tuple.(*ssa.Lookup); ok {
+				*why = "is looked up in a map at " + p.InstrPos(x.Tuple.(ssa.Instruction))
+				return false
+			}
+		case *ssa.Lookup:
+			*why = "is looked up in a map at " + p.InstrPos(x)
+			return false
+		case *ssa.UnOp:
+			*why = "is loaded from memory at " + p.InstrPos(x) + " rather than converted here"
+			return false
+		case *ssa.TypeAssert:
+			return fresh(x.X, depth+1, why)
+		}
+		*why = fmt.Sprintf("has a source that is not a conversion (%T)", v)
+		return false
+	}
+	n := 0
+	for _, fn := range libFuncs(p) {
+		if p.Cfg.Name == "W" && !wOnlyFunc(w, fn) {
+			continue
+		}
+		allInstrs(fn, func(in ssa.Instruction) {
+			c, ok := in.(ssa.CallInstruction)
+			if !ok || len(c.Common().Args) == 0 {
+				return
+			}
+			var arg ssa.Value
+			if f := c.Common().StaticCallee(); f != nil {
+				if p.InModule(f) || fname(f) != "Encode" || f.Signature.Recv() == nil {
+					return
+				}
+				arg = c.Common().Args[len(c.Common().Args)-1]
+			} else if !c.Common().IsInvoke() {
+				sig, _ := c.Common().Value.Type().Underlying().(*types.Signature)
+				if sig == nil || sig.Params().Len() != 1 || sig.Results().Len() != 1 || !isErrorType(sig.Results().At(0).Type()) {
+					return
+				}
+				if it, isI := sig.Params().At(0).Type().Underlying().(*types.Interface); !isI || it.NumMethods() != 0 {
+					return
+				}
+				arg = c.Common().Args[0]
+			} else {
+				return
+			}
+			n++
+			ob := Ob{Rule: "SIB-4", Cfg: p.Cfg.Name, Func: p.FuncID(fn), Construct: "what is encoded is the conversion of this root", Pos: p.InstrPos(in), Nontrivial: true, Role: "fresh"}
+			why := ""
+			if fresh(arg, 0, &why) {
+				ob.Status = OK
+				ob.Detail = "the encoder's argument is the result of the recursive tree conversion, made at this call"
+			} else {
+				ob.Status = Violation
+				ob.Detail = "the encoder's argument " + why + ": a root of the output may be represented by a record that was built for another root"
+			}
+			out = append(out, ob)
+		})
+	}
+	if n == 0 && p.Cfg.Name == "D" {
+		out = append(out, Ob{Rule: "SIB-4", Cfg: p.Cfg.Name, Func: "-", Construct: "what is encoded is the conversion of this root", Pos: "-", Status: Undecided, Nontrivial: true, Role: "fresh", Detail: "no encoder call found in the library"})
+	}
+	return out
 }
 
 // nodeIdents: parameters (and receiver) of type *Node.
@@ -999,6 +1199,21 @@ func errorOrigins(p *Prog, root *ssa.Function) map[string]string {
 				switch calleeFullName(x.Common()) {
 				case "fmt.Errorf", "errors.New":
 					if s, ok := constString(x.Common().Args[0]); ok {
+						// a %w wrapper around an error that already exists is not where a rejection originates: the
+						// wrapped error's own origin (a message, a sentinel, a failing reader / writer) is
+						if strings.Contains(s, "%w") && len(x.Common().Args) == 2 {
+							if elems, isV := variadicElems(x.Common().Args[1]); isV {
+								wraps := false
+								for _, e := range elems {
+									if ev := stripConv(e); isErrorType(ev.Type()) && !isNilConst(ev) {
+										wraps = true
+									}
+								}
+								if wraps {
+									return
+								}
+							}
+						}
 						out[fmt.Sprintf("%q", s)] = p.FuncID(fn)
 					}
 				}
